@@ -248,10 +248,14 @@ def run_chunk(arg):
                     toks, notes = run_history(bus, ev)
                     best = (toks, notes)
                     # timing assumption (ticks only): everything that is not a tick must be short against the timeout
-                    if not any(e[0] == "T" for e in ev) or notes["nontick_ms"] <= cfg[1] * 0.25:
+                    if not any(e[0] == "T" for e in ev) or notes["nontick_ms"] <= cfg[1] * 0.2:
                         break
                     notes["tainted"] = True
                 res.append((idx, best[0], best[1]))
+                if best[0] and best[0][-1].startswith("end/") and best[0][-1] != "end/0/0" and bus.d.alive():
+                    # a leak must not be charged to the histories that follow: fresh daemon
+                    bus.stop()
+                    bus = Bus(exe, cfg)
             except Exception as e:
                 import traceback
                 res.append((idx, None, {"exception": traceback.format_exc()[-1500:], "daemon_alive": bus.d.alive(),
@@ -263,3 +267,59 @@ def run_chunk(arg):
     finally:
         rc_err = bus.stop()
     return res, rc_err
+
+
+def run_blocked(exe, nfds=3, max_incoming=6):
+    """Exploration outside the model: a recipient that never reads.  Descriptor-carrying messages pile up in the
+    recipient's outgoing queue until the sender's max_incoming_unix_fds quota stops the bus from reading; then the
+    recipient leaves, then the sender.  Returns the observed descriptor counts (relative to the baseline)."""
+    limits = ('<limit name="max_message_unix_fds">8</limit><limit name="max_incoming_unix_fds">%d</limit>'
+              '<limit name="max_outgoing_unix_fds">12</limit>' % max_incoming)
+    d = rawbus.Daemon(exe, limits=limits)
+    res = {}
+    try:
+        t_end = time.time() + 10
+        while True:
+            try:
+                k = d.connect()
+                break
+            except (ConnectionRefusedError, FileNotFoundError):
+                if time.time() > t_end:
+                    raise
+                time.sleep(0.005)
+        k.serial = HIGH
+        k.hello(); k.barrier(); k.barrier()
+        base = d.nfds()
+        a = d.connect(want_fds=True); a.serial = HIGH; a.hello()
+        b = d.connect(want_fds=True); b.serial = HIGH; b.hello()
+        scratch = os.path.join(d.dir, "scratch")
+        open(scratch, "w").close()
+        sent = 0
+        a.sock.settimeout(0.3)
+        for i in range(2000):
+            m = rawbus.Msg(rawbus.METHOD_CALL, 1, i + 1, {rawbus.F_PATH: "/x", rawbus.F_INTERFACE: "x.I", rawbus.F_MEMBER: "M",
+                                                          rawbus.F_DESTINATION: b.unique, rawbus.F_UNIX_FDS: nfds},
+                           "h" * nfds + "s", tuple(range(nfds)) + ("p" * 3000,))
+            F = [os.open(scratch, os.O_RDONLY) for _ in range(nfds)]
+            try:
+                a.send(m, F)
+                sent += 1
+            except (TimeoutError, OSError):
+                break
+            finally:
+                for f in F:
+                    os.close(f)
+        res["sent"] = sent
+        k.barrier(); k.barrier()
+        res["blocked"] = d.nfds() - base
+        b.close()
+        k.barrier(); k.barrier(); k.barrier()
+        res["after_recipient_left"] = d.nfds() - base
+        a.close()
+        k.barrier(); k.barrier(); k.barrier()
+        res["after_sender_left"] = d.nfds() - base
+        k.close()
+    finally:
+        rc, err = d.stop()
+        res["rc"], res["stderr"] = rc, err[-2000:]
+    return res
